@@ -1,4 +1,4 @@
 SPECIFICATION PCSpec
-CONSTANTS Widths = {1, 2} Cuts = {"lel", "fc"} W = {w1, w2} NoW = NoW Kind = "simple" Variant = "strict_must_explore"
+CONSTANTS Widths = {1, 2} Cuts = {"lel", "fc"} W = {w1, w2} NoW = NoW Kind = "simple" PartialPublish = FALSE Variant = "strict_must_explore"
 SYMMETRY Sym
 INVARIANTS C09_RouteExists C03_SameAnswer LbSound C04_NoLostWakeup C04_CompleteOnlyWhenIdle CacheTInSync Counters
